@@ -17,9 +17,21 @@ tmp=sys.argv[1]; files=sys.argv[2:]
 json.dump({"Replace":{"/repo/"+f: tmp+"/tree/"+f for f in files}}, open(tmp+"/overlay.json","w"))
 PY
 bin="$tmp/mutbin"
+if [ "$(basename $cmd)" = "vcoop" ]; then
+  # merge the patch with the derived shim overlay (generated from the patched sources)
+  VERIF_SRC_OVERRIDE="$tmp/tree" VERIF_OVERLAY_OUT="$tmp/ov" python3 tools/overlaygen.py coop >/dev/null || { echo "overlaygen failed"; exit 3; }
+  python3 - "$tmp" <<'PY'
+import json,sys
+tmp=sys.argv[1]
+a=json.load(open(tmp+"/overlay.json"))["Replace"]; b=json.load(open(tmp+"/ov/coop/overlay.json"))["Replace"]
+for k,v in a.items():
+    if k not in b: b[k]=v
+json.dump({"Replace":b}, open(tmp+"/overlay.json","w"))
+PY
+fi
 go build -tags verif -overlay "$tmp/overlay.json" -o "$bin" "$cmd" 2>"$tmp/build.log" || { echo "BUILD FAILED"; tail -20 "$tmp/build.log"; exit 3; }
 mkdir -p "$tmp/root/evidence"; cp /verif/known_findings.jsonl "$tmp/root/" 2>/dev/null
-if [ "$(basename $cmd)" = "vmc" ]; then args="check $id"; else args=""; fi
+case "$(basename $cmd)" in vmc|vcoop|vevents|vmapiter) args="check $id";; *) args="";; esac
 out=$(VERIF_ROOT="$tmp/root" VERIF_TIER="$tier" "$bin" $args 2>&1); rc=$?
 echo "$out" | grep -E "VIOLATION|KNOWN-FINDING" | head -5
 echo "check exit=$rc"
